@@ -72,6 +72,9 @@ def strategy_case(draw):
         tr["x1"] = [draw(st.integers(0, d - 1))]
     case["tracked"] = tr
     case["grad_api"] = draw(st.sampled_from(["none", "none", "grad", "grad_list"]))
+    if case["grad_api"] == "grad":
+        # order in which the tracked core indices of x1 are handed to grad.grad (the result follows the given order); or None = all cores
+        case["grad_order"] = draw(st.sampled_from(["sorted", "reversed", "rotated", "none"]))
     if case["grad_api"] == "grad_list":
         # the tensors handed to grad_list: any leaves in any order (x3 has fewer cores than the others, A/B are operators)
         case["gl_leaves"] = draw(st.lists(st.sampled_from(["x1", "x2", "x3", "A", "B"]), min_size=1, max_size=4, unique=True))
@@ -181,6 +184,13 @@ def evaluate(T, case, c, dense_mode):
         elif o == "pad_slice":
             if not dense_mode:
                 cur = T.pad(cur, ((1, 1),), 0.0)[tuple([slice(None)] * (d - 1) + [slice(1, N[-1] + 1)])]
+        if dense_mode:
+            # magnitude of the intermediates (a later cancellation leaves their roundoff in the value; used by the
+            # finite-difference clause as its noise floor)
+            c.mag = max(getattr(c, "mag", 0.0), float(cur.detach().abs().sum()))
+    if dense_mode:
+        c.mag = max(getattr(c, "mag", 0.0), float(cur.detach().abs().sum()),
+                    *[float(L[k].detach().abs().sum()) for k in ("x1", "x2")])
     t = case["terminal"]
     o = t["op"]
     W = const(c, "W", N)
@@ -357,7 +367,10 @@ def execute(case):
             fd = (vals[0] - vals[1]) / (2 * h)
             an = float(sum((a * v).sum() for a, v in zip(gtt, dirs)))
             dn = float(sum(float((v ** 2).sum()) for v in dirs)) ** 0.5
-            ck.bound(abs(fd - an), 1e-6 * (abs(an) + scaleL + gnorm * dn), "grad_vs_finite_difference", "fd %g analytic %g" % (fd, an))
+            # 1e-6 relative (truncation of the central difference) + the roundoff of the two evaluations divided by 2h:
+            # u * (magnitude of the largest intermediate, which a cancellation may have removed from the value) / h
+            noise = 64 * 1.2e-16 * getattr(c, "mag", 0.0) / h
+            ck.bound(abs(fd - an), 1e-6 * (abs(an) + scaleL + gnorm * dn) + noise, "grad_vs_finite_difference", "fd %g analytic %g" % (fd, an))
     # grad.grad / grad.grad_list
     api = case["grad_api"]
     if api != "none" and ck.failed is None:
@@ -369,15 +382,30 @@ def execute(case):
         # evaluate() builds its own TT objects from the same core tensors, so .grad lands on them
         val = evaluate(T, case, c, False)[0]
         if api == "grad":
-            idxs = case["tracked"]["x1"]
-            res = lib(lambda: T.grad.grad(val, leaves2["x1"], list(idxs)))
-            ck.require(isinstance(res, list) and len(res) == len(idxs), "grad_api_len", "grad.grad returned %s" % type(res))
+            idxs = list(case["tracked"]["x1"])
+            order = case.get("grad_order", "sorted")
+            if order == "reversed":
+                idxs = idxs[::-1]
+            elif order == "rotated":
+                idxs = idxs[1:] + idxs[:1]
+            ck.label("grad_order:" + order)
+            if order == "none":
+                res = lib(lambda: T.grad.grad(val, leaves2["x1"]))
+                want = list(range(d))
+            else:
+                res = lib(lambda: T.grad.grad(val, leaves2["x1"], list(idxs)))
+                want = idxs
+            ck.require(isinstance(res, list) and len(res) == len(want), "grad_api_len", "grad.grad returned %s" % type(res))
             if ck.failed is None:
-                for i, r in zip(idxs, res):
-                    ref = [a for (l, j, _), a in zip(tracked, gtt) if l == "x1" and j == i][0]
+                for i, r in zip(want, res):
+                    refs = [a for (l, j, _), a in zip(tracked, gtt) if l == "x1" and j == i]
+                    if not refs:
+                        ck.require(r is None, "grad_api_untracked", "grad.grad returned a gradient for the untracked core %d" % i)
+                        continue
+                    ref = refs[0]
                     ck.require(r is not None and list(r.shape) == list(c.cores["x1"][i].shape), "grad_api_shape", "grad.grad entry for core %d is %s" % (i, None if r is None else list(r.shape)))
                     if ck.failed is None:
-                        ck.bound(fro(r - ref), 1e-12 * (gnorm + scaleL), "grad_api_value")
+                        ck.bound(fro(r - ref), 1e-12 * (gnorm + scaleL), "grad_api_value", "core %d (order %s)" % (i, order))
         else:
             gl = case.get("gl_leaves", ["x1", "x2"])
             lens = [len(c.cores[l]) for l in gl]
